@@ -14,12 +14,13 @@ TIE = {'approval.ProportionalApproval / SequentialProportionalApproval': 'corres
 RULE = ('corpus; approval profiles over 2..6 candidates (1..7 distinct ballots, weights 1..5) x n 1..|C| through PAV (fresh object per '
         'call and a shared object) and SPAV; score profiles over 2..5 candidates, grades 0..5, partial ballots, through ScoreVoting and '
         'MajorityJudgment with function in {mean,sum,median_low}, unscored_value in {None,0,min}, min_count in {0,2}, truncation in {0,1,1/10}, '
-        'tie_breaking in {default,plus}; a single-seat stream of complete ballots with grades 0..2 (level medians, close STAR run-offs); STAR through the model and (run-off of two) a reference; allocated score (selector; distributor with prev_gains / max_seats; Hare and Droop; 1..m seats; integer and fractional weights; few-grade profiles with level leaders) through Model/AllocScore.v - order of election and exception class compared exactly - and against an independent Python reference. Declarative '
+        'tie_breaking in {default,plus}; a single-seat stream of complete ballots with grades 0..2 (level medians, close STAR run-offs); n-seat boundary streams mj-seats-level (few grades / end-mutated copies of one grade column: equal medians at the cut, long common removal prefixes, multi-copy steps) and star-seats (tied finalist cuts, unseparated finalists, 3..5-member run-offs), both judged by independent references of the proved statements (removal-sequence order, plus counts, Schulze over the run-off supports); STAR through the model and (run-off of two) a reference; allocated score (selector; distributor with prev_gains / max_seats; Hare and Droop; 1..m seats; integer and fractional weights; few-grade profiles with level leaders) through Model/AllocScore.v - order of election and exception class compared exactly - and against an independent Python reference. Declarative '
         'clauses on implementation outputs: PAV committee = unique brute-force maximiser of the harmonic satisfaction (refusal iff not unique) '
         'and satisfies justified representation; SPAV round = unique argmax. non-trivial = more than two ballots; distinct by case hash')
 PARTIAL = ['allocated score: the clause is proved for every round without a tie and positive ballot weights; rounds with level leaders follow the code (all elected in set-iteration order, or one tie entry for several seats: C12_alloc_tie_*_refuted) and the ValueError of the subtraction loop is characterised exactly (crash_cond, C12_alloc_crash_refuted)',
-           'STAR: the run-off clause is proved for one seat with two untied finalists (C12_star_runoff); other run-off sizes are modelled and compared only',
-           'MJ default tie-break for more than one seat: only the median clause (C12_mj_highest_median) is proved; the multi-copy removal step = mj_ch single removals (C12_mj_multi_copy) assumes non-negative counts and numerically distinct grades per candidate']
+           'STAR: proved for the default configuration (run-off of n + 1, unscored below every scored candidate): table = supports, exact short class, complete one-seat table, Schulze over the table for n seats (C12_star_*); a configured unscored_value / other run-off sizes are judged by the Python reference only',
+           'MJ for n seats: the theorems (C12_mj_seats_*) are about answers; StatisticsError / VotingSystemError (reference order undefined at the cut) and the sufficiency of the fuel are compared, not proved',
+           'score voting: a non-integer truncation >= 1 is floored by the model (outside the quantified settings)']
 TRUSTED = []
 _shared = {}
 
@@ -214,10 +215,14 @@ def jr_ok(votes, n, winners):
     return True
 
 
-def score_ref(cf, votes):
-    """independent re-implementation of the documented aggregation (no truncation)"""
+def corrected_lists(cf, votes):
+    """independent re-implementation of the documented corrections: per candidate the sorted list of its scores after
+    min_count (fewer scores -> min_count copies of bottom_value), unscored_value (one copy per voter who did not score it)
+    and truncation (the c lowest and the c highest scores dropped; c = truncation when >= 1, else int(voters * truncation))
+    - C12_score_corrections / C12_score_truncation.  A candidate left without scores has an empty list"""
     cands = sorted({cc for b, _ in votes for cc, _ in b})
     nv = sum(w for _, w in votes)
+    tr = q(cf['trunc'])
     out = {}
     for cc in cands:
         lst = []
@@ -226,13 +231,26 @@ def score_ref(cf, votes):
                 if c2 == cc:
                     lst += [q(s)] * w
         if len(lst) < cf['min_count']:
-            lst = [q(cf['bottom'])] * cf['min_count']
-        elif cf['unscored'] != 'none':
+            out[cc] = [q(cf['bottom'])] * cf['min_count']
+            continue
+        n_scores = len(lst)
+        if cf['unscored'] != 'none':
             u = min(lst) if cf['unscored'] == 'min' else q(cf['unscored'])
             lst += [u] * (nv - len(lst))
+        lst.sort()
+        if tr > 0:
+            cut = int(tr) if tr >= 1 else int((nv if nv else n_scores) * tr)
+            lst = lst[cut:len(lst) - cut] if len(lst) > 2 * cut else []
+        out[cc] = lst
+    return out
+
+
+def score_ref(cf, votes):
+    """the configured exact aggregate of every candidate (None when some candidate is left without scores)"""
+    out = {}
+    for cc, lst in corrected_lists(cf, votes).items():
         if not lst:
             return None
-        lst.sort()
         if cf['fn'] == 'sum':
             out[cc] = sum(lst)
         elif cf['fn'] == 'mean':
@@ -243,25 +261,9 @@ def score_ref(cf, votes):
 
 
 def mj_lists(cf, votes):
-    """per candidate the sorted list of corrected scores (no truncation), as score_ref builds them"""
-    cands = sorted({cc for b, _ in votes for cc, _ in b})
-    nv = sum(w for _, w in votes)
-    out = {}
-    for cc in cands:
-        lst = []
-        for b, w in votes:
-            for c2, s in b:
-                if c2 == cc:
-                    lst += [q(s)] * w
-        if len(lst) < cf['min_count']:
-            lst = [q(cf['bottom'])] * cf['min_count']
-        elif cf['unscored'] != 'none':
-            u = min(lst) if cf['unscored'] == 'min' else q(cf['unscored'])
-            lst += [u] * (nv - len(lst))
-        if not lst:
-            return None
-        out[cc] = sorted(lst)
-    return out
+    """per candidate the sorted list of corrected scores (None when some candidate is left without scores)"""
+    out = corrected_lists(cf, votes)
+    return None if any(not l for l in out.values()) else out
 
 
 def mj_ref(lists):
@@ -280,6 +282,145 @@ def mj_ref(lists):
             return next(iter(alive))
         for cc in alive:
             cur[cc].remove(med[cc])
+
+
+def mj_removal_seq(l):
+    """the removal sequence (majority value) of one candidate: its lower median, the lower median after that grade is
+    taken out once, and so on until no grade is left - a function of the candidate's own sorted grades only"""
+    l, out = list(l), []
+    while l:
+        m = l[(len(l) - 1) // 2]
+        out.append(m)
+        l.remove(m)
+    return out
+
+
+def mj_seq_cmp(sa, sb):
+    """lexicographic comparison of two removal sequences: -1 / 1 at the first entry where they differ; None when one of
+    them ends before any difference (the order of the two candidates is then undefined)"""
+    for x, y in zip(sa, sb):
+        if x != y:
+            return -1 if x < y else 1
+    return None
+
+
+def mj_top(lists, n):
+    """majority judgment for n seats as documented, declaratively: the set of n candidates each of which is
+    lexicographically strictly above every candidate outside the set (C12_mj_seats_default); None when no such set
+    exists (an unbreakable tie at the cut, or a candidate at the cut runs out of grades)"""
+    cands = sorted(lists)
+    if n >= len(cands):
+        return set(cands)
+    seqs = {cc: mj_removal_seq(l) for cc, l in lists.items()}
+    need = len(cands) - n
+    top = {cc for cc in cands if sum(1 for d in cands if d != cc and mj_seq_cmp(seqs[cc], seqs[d]) == 1) >= need}
+    if len(top) == n and all(mj_seq_cmp(seqs[cc], seqs[d]) == 1 for cc in top for d in cands if d not in top):
+        return top
+    return None
+
+
+def mj_seats_spec(c, v):
+    """the n-seat clauses on the implementation's answer (truncation off): default = the top-n set of the removal-sequence
+    order, no tie object; plus = plain winners strictly ahead in the count of grades at or above the shared median,
+    the members of a reported tie level in it"""
+    lists = mj_lists(c['cfg'], c['votes'])
+    if lists is None:
+        return None
+    n, m = c['n'], len(lists)
+    med = {cc: l[(len(l) - 1) // 2] for cc, l in lists.items()}
+    if c.get('plus'):
+        if v[0] != 0:
+            return None
+        res = v[1]
+        plain = [r for r in res if not isinstance(r, list)]
+        ties = [r for r in res if isinstance(r, list)]
+        cnt = {cc: sum(1 for s in lists[cc] if s >= med[cc]) for cc in lists}
+        if len(res) != min(n, m) or len(set(plain)) != len(plain):
+            return 'majority judgment plus returns %s for %d seats and %d candidates' % (res, n, m)
+        for cc in plain:
+            for d in lists:
+                if d not in plain and (med[d] > med[cc] or (med[d] == med[cc] and cnt[d] >= cnt[cc])):
+                    return ('majority judgment plus (%d seats) elects %d (median %s, %d grades at or above) and leaves out %d (median %s, %d)'
+                            % (n, cc, med[cc], cnt[cc], d, med[d], cnt[d]))
+        for t in ties:
+            for cc in t:
+                for d in lists:
+                    if d not in plain and (med[d] > med[cc] or (med[d] == med[cc] and (cnt[d] > cnt[cc] or (d in t and cnt[d] != cnt[cc])))):
+                        return ('majority judgment plus (%d seats) reports the tie %s although %d (median %s, %d grades at or above) and %d (median %s, %d) differ'
+                                % (n, t, cc, med[cc], cnt[cc], d, med[d], cnt[d]))
+        return None
+    want = mj_top(lists, n)
+    if v[0] != 0 or any(isinstance(r, list) for r in v[1]):
+        if want is not None and n < m:
+            return ('majority judgment (default tie-break, %d seats) answers %s, the removal sequences separate the top %d: %s'
+                    % (n, c.get('_exc') or v[1], n, sorted(want)))
+        return None
+    res = v[1]
+    if len(res) != min(n, m) or len(set(res)) != len(res) or any(r not in lists for r in res):
+        return 'majority judgment (default) returns %s for %d seats and %d candidates' % (res, n, m)
+    seqs = {cc: mj_removal_seq(l) for cc, l in lists.items()}
+    for cc in res:
+        for d in lists:
+            if d not in res and mj_seq_cmp(seqs[d], seqs[cc]) != -1:
+                return ('majority judgment (default tie-break, %d seats) elects %d (removal sequence %s) and leaves out %d (%s), which is not '
+                        'lexicographically below' % (n, cc, [str(x) for x in seqs[cc]], d, [str(x) for x in seqs[d]]))
+    return None
+
+
+def star_ref(c):
+    """STAR as defined, independently (C12_star_seats / C12_star_single_exact): run-off members = the n + 1 highest score
+    sums, a tie at that cut drops the whole level group; support(x, y) = weight of the ballots that score x above y (an
+    unscored candidate counts with the configured unscored_value, or below every scored one); the contest = members that
+    some ballot separates from another member; answer = Schulze (number of beat-path wins over the supports) among the
+    contest, min(n, size of the contest) entries.  -> (contest, plain winners, tied level or None)"""
+    n = c['n']
+    sums = {}
+    for b, w in c['votes']:
+        for cc, s in b:
+            sums[cc] = sums.get(cc, 0) + q(s) * w
+    order = sorted(sums, key=lambda k: -sums[k])
+    if len(order) <= n + 1:
+        members = list(order)
+    else:
+        thr = sums[order[n]]
+        members = [cc for cc in order if sums[cc] > thr] if sums[order[n + 1]] == thr else order[:n + 1]
+    uv = -1 if c.get('unscored', 'none') == 'none' else int(c['unscored'])
+    sup = {(x, y): sum(w for bal, w in c['votes'] if dict(bal).get(x, uv) > dict(bal).get(y, uv)) for x in members for y in members if x != y}
+    if uv == -1:
+        seen = {(x, y) for x in members for y in members if x != y
+                and any(dict(bal).get(x, uv) > dict(bal).get(y, uv) for bal, w in c['votes'])}
+    else:
+        seen = {k for k, v in sup.items() if v > 0}
+    contest = [x for x in members if any((x, y) in seen or (y, x) in seen for y in members if y != x)]
+    p = {(x, y): (sup[x, y] if sup[x, y] > sup[y, x] else 0) for x in contest for y in contest if x != y}
+    for i in contest:
+        for j in contest:
+            if j != i:
+                for k in contest:
+                    if k != i and k != j:
+                        p[j, k] = max(p[j, k], min(p[j, i], p[i, k]))
+    wins = {x: sum(1 for y in contest if y != x and p[x, y] > p[y, x]) for x in contest}
+    ranked = sorted(contest, key=lambda x: -wins[x])
+    if len(ranked) <= n:
+        return contest, set(ranked), None
+    thr = wins[ranked[n - 1]]
+    if wins[ranked[n]] != thr:
+        return contest, set(ranked[:n]), None
+    return contest, {x for x in ranked if wins[x] > thr}, {x for x in ranked if wins[x] == thr}
+
+
+def star_seats_spec(c, v):
+    contest, plain, tied = star_ref(c)
+    n, res = c['n'], v[1]
+    got_plain = [r for r in res if not isinstance(r, list)]
+    got_ties = [set(r) for r in res if isinstance(r, list)]
+    if len(res) != min(n, len(contest)):
+        return ('STAR returns %d entries %s for %d seats; %d run-off members are separated by a ballot (%s): expected %d entries'
+                % (len(res), res, n, len(contest), sorted(contest), min(n, len(contest))))
+    if set(got_plain) != plain or len(set(got_plain)) != len(got_plain) or any(t != tied for t in got_ties) or (tied is None) != (not got_ties):
+        return ('STAR (%d seats) returns %s; Schulze over the run-off supports elects %s%s'
+                % (n, res, sorted(plain), '' if tied is None else ' and leaves %s level' % sorted(tied)))
+    return None
 
 
 def alloc_ref(votes, n, quota_name):
@@ -383,7 +524,7 @@ def spec(c, io, mo):
         if not jr_ok(c['votes'], c['n'], got):
             c['_class'] = 'pav-jr'
             return 'PAV committee %s violates justified representation' % got
-    if u == 'score' and v[0] == 0 and q(c['cfg']['trunc']) == 0:
+    if u == 'score' and v[0] == 0:
         ref = score_ref(c['cfg'], c['votes'])
         if ref is not None:
             res = v[1]
@@ -397,7 +538,7 @@ def spec(c, io, mo):
             if plain and outside and max(ref[x] for x in outside) > min(ref[x] for x in plain):
                 c['_class'] = 'score-order'
                 return 'a better aggregate is left out'
-    if u == 'mj' and v[0] == 0 and c['n'] == 1 and q(c['cfg']['trunc']) == 0 and len(v[1]) == 1 and not isinstance(v[1][0], list):
+    if u == 'mj' and v[0] == 0 and c['n'] == 1 and len(v[1]) == 1 and not isinstance(v[1][0], list):
         lists = mj_lists(c['cfg'], c['votes'])
         if lists is not None:
             med = {cc: l[(len(l) - 1) // 2] for cc, l in lists.items()}
@@ -416,7 +557,7 @@ def spec(c, io, mo):
                     c['_class'] = 'mj-default-reentry'
                     return ('majority judgment (default tie-break) elects %d, successive median removal among the level candidates elects %d: '
                             'a candidate that fell behind stayed in the removal loop' % (v[1][0], want))
-    if u == 'mj' and not c.get('plus') and c['n'] == 1 and q(c['cfg']['trunc']) == 0 and (
+    if u == 'mj' and not c.get('plus') and c['n'] == 1 and (
             v[0] != 0 or (len(v[1]) == 1 and isinstance(v[1][0], list))):
         # no plain winner (an error or a tie) although successive median removal among the level candidates has one
         lists = mj_lists(c['cfg'], c['votes'])
@@ -425,6 +566,11 @@ def spec(c, io, mo):
             c['_class'] = 'mj-default-reentry'
             return ('majority judgment (default tie-break) answers %s, successive median removal among the level candidates elects %d'
                     % (c.get('_exc') or v[1], want))
+    if u == 'mj' and (v[0] == 0 or v[1] in (common.E['VSE'], common.E['STATS'])):
+        bad = mj_seats_spec(c, v)
+        if bad is not None:
+            c['_class'] = 'mj-seats'
+            return bad
     if u == 'star' and v[0] == 0 and c['n'] == 1:
         sums = {}
         for b, w in c['votes']:
@@ -442,6 +588,11 @@ def spec(c, io, mo):
             if want is not None and res != [want]:
                 c['_class'] = 'star'
                 return 'STAR returns %s, run-off of %d and %d is won by %d (%s:%s)' % (res, a, b2, want, pa, pb)
+    if u == 'star' and v[0] == 0:
+        bad = star_seats_spec(c, v)
+        if bad is not None:
+            c['_class'] = 'star-seats'
+            return bad
     if u in ('score', 'mj') and v[0] != 0 and v[1] not in (common.E['NIE'], common.E['VSE']):
         c['_class'] = 'trunc-empty' if trunc_empties(c) else ('mj-default-stats' if u == 'mj' and not c.get('plus') else u + '-crash')
         return '%s raises %s (trunc=%s min_count=%s unscored=%s)' % (u, c.get('_exc'), c['cfg']['trunc'], c['cfg']['min_count'], c['cfg']['unscored'])
@@ -641,6 +792,95 @@ def gen_focus(rng, count):
         yield c
 
 
+def gen_mj_seats(rng, count):
+    """boundary stream for the n-seat majority-judgment clauses: (a) few grades over 3..5 candidates, complete or partial
+    ballots, so that the cut between elected and not elected often falls inside a group of equal medians, for every seat
+    count; (b) candidates whose grade columns are small mutations (at the far ends) of one common column, so that the
+    removal sequences agree on a long prefix: many removal rounds, multi-copy steps, several seats decided by the same
+    loop, exact copies (unbreakable ties) included"""
+    for _ in range(count):
+        kind = rng.choice(['level', 'level', 'columns', 'columns', 'columns'])
+        cfg = dict(fn='median_low', unscored='none', min_count=0, trunc='0', bottom='0')
+        if kind == 'level':
+            m = rng.randint(3, 5)
+            g = rng.choice([1, 2, 2, 3])
+            full = rng.random() < 0.6
+            rows = {}
+            for _ in range(rng.randint(2, 7)):
+                cs = list(range(1, m + 1)) if full else sorted(rng.sample(range(1, m + 1), rng.randint(1, m)))
+                b = tuple((cc, rng.randint(0, g)) for cc in cs)
+                rows[b] = rng.randint(1, 3)
+            if not full:
+                cfg['unscored'] = rng.choice(['none', '0', 'min'])
+        else:
+            m = rng.randint(3, 5)
+            nv = rng.randint(4, 9)
+            g = rng.choice([2, 3, 4])
+            base = sorted(rng.randint(0, g) for _ in range(nv))
+            if rng.random() < 0.5:
+                mid = base[(nv - 1) // 2]          # a heavy median grade: several copies go in one step
+                base = sorted(base[:2] + [mid] * (nv - 4) + base[-2:])
+            cols = []
+            for _cc in range(m):
+                col = list(base)
+                for _ in range(rng.choice([0, 1, 1, 2])):
+                    i = rng.choice([0, 0, 1, nv - 2, nv - 1, nv - 1])
+                    col[i] = min(g, max(0, col[i] + rng.choice([-1, 1])))
+                rng.shuffle(col)
+                cols.append(col)
+            rows = {}
+            for i in range(nv):
+                b = tuple((cc + 1, cols[cc][i]) for cc in range(m))
+                rows[b] = rows.get(b, 0) + 1
+        votes = [[[list(x) for x in b], w] for b, w in rows.items()]
+        mm = len({cc for b, _ in votes for cc, _ in b})
+        yield dict(unit='mj', votes=votes, n=rng.randint(1, mm), cfg=cfg, plus=rng.random() < 0.25)
+
+
+def gen_star_seats(rng, count):
+    """boundary stream for STAR with any number of seats: few grades and few ballots over 3..5 candidates (partial ballots
+    included), so that tied finalist cuts, finalists no ballot separates (the short class), level run-offs and
+    three- / four-member Schulze run-offs are all frequent"""
+    for _ in range(count):
+        m = rng.randint(3, 5)
+        g = rng.choice([1, 2, 2, 3, 5])
+        full = rng.random() < 0.5
+        rows = {}
+        for _ in range(rng.randint(1, 6)):
+            cs = list(range(1, m + 1)) if full else sorted(rng.sample(range(1, m + 1), rng.randint(1, m)))
+            b = tuple((cc, rng.randint(0, g)) for cc in cs)
+            rows[b] = rng.randint(1, 3)
+        votes = [[[list(x) for x in b], w] for b, w in rows.items()]
+        mm = len({cc for b, _ in votes for cc, _ in b})
+        c = dict(unit='star', votes=votes, n=rng.randint(1, max(1, mm - 1)),
+                 cfg=dict(fn='sum', unscored='none', min_count=0, trunc='0', bottom='0'))
+        if not full and rng.random() < 0.25:
+            c['unscored'] = '0'
+        yield c
+
+
+def gen_score_trunc(rng, count):
+    """boundary stream for the corrections: enough voters (ballot counts up to 9) that fractional cut-offs are effective,
+    truncation in {1/10, 1/5, 1/4, 1/3, 1, 2, 3}, min_count around the number of scores a candidate holds, every
+    unscored_value; through ScoreVoting (mean / sum / median_low) and MajorityJudgment"""
+    for _ in range(count):
+        m = rng.randint(2, 4)
+        rows = {}
+        for _ in range(rng.randint(2, 6)):
+            cs = sorted(rng.sample(range(1, m + 1), rng.randint(1, m)))
+            b = tuple((cc, rng.randint(0, 5)) for cc in cs)
+            rows[b] = rng.randint(1, 9)
+        votes = [[[list(x) for x in b], w] for b, w in rows.items()]
+        mm = len({cc for b, _ in votes for cc, _ in b})
+        cfg = dict(fn=rng.choice(['mean', 'sum', 'median_low']), unscored=rng.choice(['none', 'none', '0', 'min']),
+                   min_count=rng.choice([0, 0, 2, 5, 10]), trunc=rng.choice(['1/10', '1/5', '1/4', '1/3', '1', '2', '3']), bottom='0')
+        u = rng.choice(['score', 'score', 'mj'])
+        c = dict(unit=u, votes=votes, n=rng.randint(1, mm), cfg=cfg)
+        if u == 'mj':
+            c['plus'] = rng.random() < 0.4
+        yield c
+
+
 def corpus():
     import os, json, glob
     for p in sorted(glob.glob(os.path.join(common.VERIF, 'corpus', ID, '*.json'))):
@@ -652,6 +892,9 @@ def explore(ctx, widen=1):
     ctx.differential('corpus', corpus(), model_line, impl, **kw)
     ctx.differential('random', gen(ctx.rng, ctx.n(3000, 40000) * widen), model_line, impl, **kw)
     ctx.differential('single-seat-level', gen_focus(ctx.rng, ctx.n(1500, 15000) * widen), model_line, impl, **kw)
+    ctx.differential('mj-seats-level', gen_mj_seats(ctx.rng, ctx.n(3000, 30000) * widen), model_line, impl, **kw)
+    ctx.differential('star-seats', gen_star_seats(ctx.rng, ctx.n(2500, 25000) * widen), model_line, impl, **kw)
+    ctx.differential('score-trunc', gen_score_trunc(ctx.rng, ctx.n(1500, 15000) * widen), model_line, impl, **kw)
     ctx.differential('alloc-exact-quota', gen_alloc_exact(ctx.rng, ctx.n(3000, 20000) * widen), model_line, impl, **kw)
     ctx.differential('alloc-model', gen_alloc_model(ctx.rng, ctx.n(4000, 40000) * widen), model_line, impl, **kw)
 
